@@ -41,11 +41,11 @@ PROPS = {
             "claim": "PARTIAL. Proof (Lean 4) over an abstract shared-memory trace model: read-only shared data implies no conflicting access and every interleaving gives each thread its sequential observations. Tied by the write-set obligation (no shared writes reachable from Evaluate) and by concurrent runs of the real code under the Go race detector compared with sequential baselines."},
     "C14": {"obligations": ["WriteSet"],
             "claim": "Proof (Lean 4): every precomputed table/operand is transparent (key sets, typed equality sets incl. mixed types, regex/timestamp/semver operands), hence whole evaluations agree (evaluate_transparent: full observation equality). Tied by running each configuration in four construction forms on the real code and comparing Preprocess* dumps with the model. A zero-time operand defect was repaired (fix: bd47c6e)."},
-    "C15": {"obligations": ["CodecTables"],
+    "C15": {"obligations": ["CodecTables", "CodecModelTie"],
             "claim": "Proof (Lean 4) on JSON trees: reference write/read round trips (literal vs path by context kind), decoder-range round trip to a fixed point after one step up to dropped empty rollouts, which cannot influence evaluation. Tied by fixed-point/evaluation-equivalence/builders relations on the real codec and decoder-model correspondence. Open finding F5 (negative debugEventsUntilDate) is listed in KNOWN_FINDINGS.txt."},
-    "C16": {"obligations": ["CodecTables"], "easyjson": True,
+    "C16": {"obligations": ["CodecTables", "CodecModelTie"], "easyjson": True,
             "claim": "Proof (Lean 4): for every flag/segment value the encoder's tree satisfies the wire-schema predicate (all legacy properties present and typed, lists always arrays). Tied by encoder-model correspondence, the schema predicate evaluated on Go's real output, byte/tree equality of the four encode and decode paths (easyjson build included) and the entry-point obligation. Byte-level JSON writing (go-jsonstream) is tested, not proved."},
-    "C17": {"obligations": ["CodecTables"],
+    "C17": {"obligations": ["CodecTables", "CodecModelTie"],
             "claim": "Proof (Lean 4) on JSON trees: unknown members ignored, member order irrelevant, omitted = default, null = omission for exactly the listed positions, rollout variations null rejected. Tied by the same relations on the real decoder, decoder-model correspondence on corrupted/duplicated documents, and byte-level robustness runs (never panics, error => zero value, destination untouched). Tokenisation of arbitrary bytes is fuzzed, not proved."},
     "C18": {"obligations": [],
             "claim": "Proof (Lean 4): parse(render s) = the instant s denotes for every valid RFC 3339 stamp (years 0000-9999, offsets to ±99:59, 0-9 fraction digits, both cases), every proper prefix rejected, numeric milliseconds exact, before/after = strict order of instants, string and number forms interchangeable, calendar arithmetic validated for all years. Tied by exact (ns) unit correspondence at all three conversion sites. An overflow after 2262 was repaired (fix: b8e6147)."},
